@@ -1,8 +1,231 @@
+/-
+C05 driver — number ↔ bits codecs.
+
+  C05 api  <w> <be|le> <val> p<pre-bits> p<post-bits>
+      F = from_int(val,w,o); E = the bits of F embedded after `pre` (and before `post`) in a fresh
+      buffer, addressed as the sub-range [|pre|, |pre|+w).   answer: f<hex(F)>:<len> u<E.to_uint> i<E.to_int>
+  C05 f32|f64 <be|le> <hexbits> p<pre> p<post>
+      F = from_fNN(bits,o); E as above.                        answer: f<hex(F)>:<len> r<E.to_fNN bits>
+  C05 word <val> p<pre> p<post> | <pack program> | <read program>
+      val = i<dec> or r<16 hex>.  pack program: tokens `big little <n> int! uint! float! uN! iN!
+      uNle! … fN! …`; read program: `big little <n> int uint float uN iN fN (le|be)`.
+      The packed bit-string is embedded as above, `open-bitstr` is applied to the embedded sub-range
+      and the read program runs.                               answer: f<hex>:<len> ok <cell> | err <Xerr>
+      (NaNs are compared as a class on this path: `f64 as f32` / `f32 as f64` may quiet a signalling NaN.)
+
+`|pre|+w+|post|` must be a multiple of 8 (the harness pads `post`).
+-/
+import XehModel.Model.Bitstr
+import XehModel.Model.SoftFloat
 import XehModel.Driver.Codec
+import XehModel.Driver.C04
 
 namespace Xeh.Driver.C05
+open Xeh Xeh.Bits Xeh.Bitstr
 
-/-- stub: not modelled yet -/
-def handle (_args : List String) : String := "unsupported"
+def parseBits (s : String) : Option (List Bool) :=
+  match s.toList with
+  | 'p' :: r => if r.all (fun c => c == '0' || c == '1') then some (r.map (· == '1')) else none
+  | _ => none
+
+/-- pack a bit list (length multiple of 8) into bytes -/
+def bytesOfBits (l : List Bool) : List Nat := (chunks8 l).map beVal
+
+/-- the embedded view: buffer = pre ++ field ++ post, range = the field -/
+def embed (pre field post : List Bool) : View :=
+  ⟨bytesOfBits (pre ++ field ++ post), pre.length, pre.length + field.length⟩
+
+def fieldOf (h : Heap) (s : Handle) : String := s!"f{C04.packHex (bits h s)}:{s.end_ - s.start}"
+
+/-! ### the thin word layer (bitstr_ext.rs 141–170, 556–600) -/
+
+structure WordSt where
+  big : Bool := false
+  stack : List Cell := []
+
+inductive Kind where | u | i | f
+deriving DecidableEq
+
+/-- `uN iN fN` with optional `le|be` and optional `!` -/
+def parseFixed (w : String) : Option (Kind × Nat × Option Byteorder × Bool) :=
+  let cs := w.toList
+  let (pack, cs) := if cs.getLast? == some '!' then (true, cs.dropLast) else (false, cs)
+  match cs with
+  | k :: r =>
+    let kind? : Option Kind := if k == 'u' then some .u else if k == 'i' then some .i else if k == 'f' then some .f else none
+    match kind? with
+    | none => none
+    | some kind =>
+      let digits := r.takeWhile Char.isDigit
+      let suffix := r.dropWhile Char.isDigit
+      match (String.ofList digits).toNat? with
+      | none => none
+      | some n =>
+        let okN := if kind == .f then n == 32 || n == 64 else n == 8 || n == 16 || n == 32 || n == 64
+        if !okN then none
+        else if suffix == [] then some (kind, n, none, pack)
+        else if suffix == ['l', 'e'] then some (kind, n, some .little, pack)
+        else if suffix == ['b', 'e'] then some (kind, n, some .big, pack)
+        else none
+  | [] => none
+
+def curOrder (st : WordSt) : Byteorder := if st.big then .big else .little
+
+def popUsize (st : WordSt) : Except String (Nat × WordSt) :=
+  match st.stack with
+  | c :: r =>
+    match c.value with
+    | .int i => if 0 ≤ i ∧ i < 2 ^ 64 then .ok (i.toNat, { st with stack := r }) else .error "err IntegerOverflow"
+    | _ => .error "err TypeError"
+  | [] => .error "err StackUnderflow"
+
+/-- `pack_int_bo` / `pack_float_bo`: result is the bit list of the packed value -/
+def packWord (kind : Kind) (n : Nat) (o : Byteorder) (st : WordSt) : Except String (List Bool) :=
+  match st.stack with
+  | [] => .error "err StackUnderflow"
+  | c :: _ =>
+    match kind with
+    | .f =>
+      match c.value with
+      | .real r =>
+        if n == 32 then
+          let (h, s) := fromF32 Heap.empty (SF.f64to32 r).toNat o
+          .ok (bits h s)
+        else if n == 64 then
+          let (h, s) := fromF64 Heap.empty r.toNat o
+          .ok (bits h s)
+        else .error s!"err ErrorMsg:unsupported_float_length_{n}"
+      | _ => .error "err TypeError"
+    | _ =>
+      match c.value with
+      | .int v =>
+        let (h, s) := fromInt Heap.empty v n o
+        .ok (bits h s)
+      | _ => .error "err TypeError"
+
+def runPack (toks : List String) : WordSt → Except String (List Bool)
+  | st =>
+    match toks with
+    | [] => .error "bad-args"
+    | "big" :: r => runPack r { st with big := true }
+    | "little" :: r => runPack r { st with big := false }
+    | [w] =>
+      if w == "int!" || w == "uint!" || w == "float!" then
+        match popUsize st with
+        | .error e => .error e
+        | .ok (n, st') => packWord (if w == "float!" then .f else .i) n (curOrder st') st'
+      else
+        match parseFixed w with
+        | some (kind, n, bo, true) => packWord kind n (bo.getD (curOrder st)) st
+        | _ => .error "unsupported"
+    | t :: r =>
+      match t.toInt? with
+      | some i => runPack r { st with stack := .int i :: st.stack }
+      | none => .error "unsupported"
+
+def showReal (r : Nat) : String :=
+  if SF.isNaN64 (.ofNat r) then "rNaN" else "r" ++ String.ofList (Codec.hexOfNat 16 r)
+
+/-- `read_unsigned` / `read_signed` / `read_float` on the opened input `inp` (offset = its start) -/
+def readWord (kind : Kind) (n : Nat) (o : Byteorder) (inp : View) : String :=
+  -- peek_bits: substr(start, start+n) of the input
+  match checkedAdd inp.start n with
+  | none => s!"err ReadError:{inp.end_ - inp.start}:{n}"
+  | some e =>
+    if e > inp.end_ then s!"err ReadError:{inp.end_ - inp.start}:{n}"
+    else
+      let s : View := { inp with end_ := e }
+      match kind with
+      | .u =>
+        if s.len > 127 then "err IntegerOverflow"
+        else match s.toUint o with
+          | .ok v => s!"ok i{v}"
+          | _ => "panic"
+      | .i =>
+        if s.len > 128 then "err IntegerOverflow"
+        else match s.toInt o with
+          | .ok v => s!"ok i{v}"
+          | _ => "panic"
+      | .f =>
+        if n == 32 then
+          match s.toF32 o with
+          | .ok v => "ok " ++ showReal (SF.f32to64 (.ofNat v)).toNat
+          | _ => "panic"
+        else if n == 64 then
+          match s.toF64 o with
+          | .ok v => "ok " ++ showReal v
+          | _ => "panic"
+        else s!"err ErrorMsg:unsupported_float_length_{n}"
+
+def runRead (toks : List String) (inp : View) : WordSt → String
+  | st =>
+    match toks with
+    | [] => "bad-args"
+    | "big" :: r => runRead r inp { st with big := true }
+    | "little" :: r => runRead r inp { st with big := false }
+    | [w] =>
+      if w == "int" || w == "uint" || w == "float" then
+        match popUsize st with
+        | .error e => e
+        | .ok (n, st') => readWord (if w == "float" then .f else if w == "int" then .i else .u) n (curOrder st') inp
+      else
+        match parseFixed w with
+        | some (kind, n, bo, false) => readWord kind n (bo.getD (curOrder st)) inp
+        | _ => "unsupported"
+    | t :: r =>
+      match t.toInt? with
+      | some i => runRead r inp { st with stack := .int i :: st.stack }
+      | none => "unsupported"
+
+def splitBar (toks : List String) : List (List String) :=
+  let rec go : List String → List String → List (List String) → List (List String)
+    | [], cur, acc => (cur.reverse :: acc).reverse
+    | "|" :: r, cur, acc => go r [] (cur.reverse :: acc)
+    | t :: r, cur, acc => go r (t :: cur) acc
+  go toks [] []
+
+def fieldStr (bs : List Bool) (nanClass : Bool) : String :=
+  if nanClass then "fNaN" else s!"f{C04.packHex bs}:{bs.length}"
+
+def handle (args : List String) : String :=
+  match args with
+  | ["api", w, o, v, pre, post] =>
+    match w.toNat?, C04.parseOrder o, v.toInt?, parseBits pre, parseBits post with
+    | some w, some o, some v, some pre, some post =>
+      let (h, s) := fromInt Heap.empty v w o
+      let field := bits h s
+      let e := embed pre field post
+      match e.toUint o, e.toInt o with
+      | .ok u, .ok i => s!"{fieldOf h s} u{u} i{i}"
+      | _, _ => "panic"
+    | _, _, _, _, _ => "bad-args"
+  | [fk, o, hx, pre, post] =>
+    match C04.parseOrder o, Codec.natOfHex hx.toList, parseBits pre, parseBits post with
+    | some o, some x, some pre, some post =>
+      if fk == "f32" then
+        let (h, s) := fromF32 Heap.empty x o
+        let e := embed pre (bits h s) post
+        match e.toF32 o with
+        | .ok r => s!"{fieldOf h s} r{String.ofList (Codec.hexOfNat 8 r)}"
+        | _ => "panic"
+      else if fk == "f64" then
+        let (h, s) := fromF64 Heap.empty x o
+        let e := embed pre (bits h s) post
+        match e.toF64 o with
+        | .ok r => s!"{fieldOf h s} r{String.ofList (Codec.hexOfNat 16 r)}"
+        | _ => "panic"
+      else "bad-op"
+    | _, _, _, _ => "bad-args"
+  | "word" :: v :: pre :: post :: "|" :: rest =>
+    match Codec.readCell v, parseBits pre, parseBits post, splitBar rest with
+    | some c, some pre, some post, [packP, readP] =>
+      match runPack packP { stack := [c] } with
+      | .error e => e
+      | .ok field =>
+        let nan := match c with | .real r => SF.isNaN64 r | _ => false
+        let e := embed pre field post
+        s!"{fieldStr field nan} {runRead readP e {}}"
+    | _, _, _, _ => "bad-args"
+  | _ => "bad-op"
 
 end Xeh.Driver.C05
